@@ -225,6 +225,15 @@ class RealEng:
                 self.saved = buf.getvalue()
                 self.gen_state = self.gen.get_state()
                 return "ok"
+            if o[0] == "saveret":
+                # second-generation checkpoint: the dict RETURNED by load_checkpoint is handed back as
+                # `checkpoint_dict` (its user keys must survive, its state entries must be overwritten)
+                buf = io.BytesIO()
+                self.pe.save_checkpoint(path=buf, module=self.model, optimizer=self.opt, noise_scheduler=self.nsched,
+                                        grad_clip_scheduler=self.csched, checkpoint_dict=self.ret)
+                self.saved = buf.getvalue()
+                self.gen_state = self.gen.get_state()
+                return "ok"
             if o[0] == "load":
                 return self._load(self.mech, self.saved)
             if o[0] == "loadinto":
